@@ -14,7 +14,7 @@ CHECKS = {
                 "all keys, the full counter table, doorkeeper answers and incrs are logged after each step and the trace "
                 "is validated by TLC against spec/cache/TraceSketch.tla.",
         "design_ref": "DESIGN.md section 6 (C18)",
-        "note": "Sketch layer explored for 4x4 counters, 4 keys, <= 6 operations (9 for the bare sketch); real-code "
+        "note": "Sketch layer explored for 4x4 counters, 4 keys, <= 6 / 10 operations quick / thorough (8 / 12 for the bare sketch); real-code "
                 "verdicts cover the keys of each trace's universe. Estimate = min over rows is not demanded by C18 as "
                 "stated (and is indistinguishable from max in this code, whose rows collide identically); a deviation "
                 "there shows as CONFORMANCE-DRIFT only.",
